@@ -89,6 +89,7 @@ def floors(tier):
                 'path:exec-step': 100, 'path:disk-output': 60,
                 'args:spelling-pair': 120, 'args:model': 90,
                 'args:regen-compare': 80, 'pcsub:include-dir-checked': 20,
+                'cwd:checked-in-submodule': 2000,
                 'distinct_nontrivial': 90}
     return {'submodule:identity-checked': 3000, 'submodule:kept-checked': 3000,
             'path:extra-dep': 300, 'path:include': 1000,
@@ -313,6 +314,17 @@ def check_log(cx, run, ctxname, expected, observed, targets):
                         'observed': skel_o})
             return False
         t = e['t']
+        # the process's own working directory is the script's directory whenever the script
+        # is the one running (at its start, and again after every submodule it called)
+        want_cwd = e['me'].split(':', 1)[1] or '.'
+        res.ev('cwd:checked')
+        if want_cwd != '.':
+            res.ev('cwd:checked-in-submodule')
+        if o.get('cwd') != want_cwd:
+            cx.violate(('cwd', 'not-the-scripts-directory', ctxname),
+                       [e['me'], t],
+                       {'run': run, 'script': e['me'], 'record': t, 'inst': e['inst'],
+                        'expected_cwd': want_cwd, 'got_cwd': o.get('cwd')})
         if t in ('start', 'end'):
             if t == 'start':
                 res.ev('script:executions')
